@@ -324,6 +324,7 @@ func runChild(fl *hx.Flags) {
 				enc.Encode(childLine{Case: sc, Params: []int64{int64(idle), int64(mw), int64(wc)}, Counts: map[string]int{}})
 				continue
 			}
+			tlive.WriteCurrent(fl.Out, sc)
 			enc.Encode(runScenario(sc, fl.Seed))
 		}
 		return
@@ -353,6 +354,7 @@ func runChild(fl *hx.Flags) {
 		} else {
 			sc = genPool(fl.Seed, idx, thorough)
 		}
+		tlive.WriteCurrent(fl.Out, sc)
 		l := runScenario(sc, fl.Seed^idx)
 		if l.Stop {
 			if prev != nil {
@@ -391,7 +393,9 @@ func spawnChild(fl *hx.Flags, i int, from string) []childLine {
 	}
 	if err != nil {
 		l := childLine{Case: tlive.Scenario{Kind: "pool", Family: "child-crash"}, Term: "mkPC (mkLC 10 10 [] [] 0) 0 true (-1) [] (-1) 0", Counts: map[string]int{"child-crash": 1}}
-		if n := len(lines); n > 0 {
+		if cur := tlive.ReadCurrent(dir); cur != nil {
+			l.Case = *cur // the scenario that was running
+		} else if n := len(lines); n > 0 {
 			l.Case = lines[n-1].Case
 		}
 		l.Direct = append(l.Direct, directV{What: "driver process crashed (panic outside Call/Cancel or fatal error)", Detail: fmt.Sprintf("%v: %s", err, errb.String())})
